@@ -2850,6 +2850,87 @@ def c01r(F, R):
         R.bad("shape", f"UNEXTRACTABLE: `{OUT}` is not built and published in one block", f["sp"])
 
 
+@rule("C16", "C16.f.every-label-reaches-the-label-map", floor=2)
+@rule("C03", "C03.h.every-label-reaches-the-label-map", floor=2)
+def c03h(F, R):
+    """when the graph is built every label that precedes an instruction is entered into the label -> node map, whichever kind of node the instruction gets (a function entry or a plain node): each place that hands the pending labels to a new node also inserts each of them into the map before the pending set is cleared; a label that misses the map cannot be jumped to, and a jump to it is an "undefined label" although it is defined"""
+    cn = [q for q in F.fns if q.endswith("Cfg::new_with_predefined_call_names")]
+    if not cn:
+        raise Anchor("Cfg::new_with_predefined_call_names not found")
+    f = F.fn(cn[0])
+    body = f["hir"]["value"]
+    clears = [m for m in walk(body, pats=False) if m.get("k") == "MethodCall" and m["name"] == "clear" and "HashSet" in (recv_ty_(m) or "")]
+    if not clears:
+        R.bad("shape", "UNEXTRACTABLE: the pending label set is never cleared in Cfg::new", f["sp"])
+        return
+    from .p_parse import parent_map
+    pm = parent_map(body)
+    for n_, c in enumerate(clears):
+        P_ = ekey(c["recv"]).lstrip("&*")
+        blk = pm.get(id(c))
+        while blk is not None and blk.get("k") != "Block":
+            blk = pm.get(id(blk))
+        stmts = (blk or {}).get("stmts", [])
+        idx = next((i for i, st in enumerate(stmts) if any(y is c for y in walk(st, pats=False))), len(stmts))
+        okk = False
+        for st in stmts[:idx]:
+            for fl in for_loops(st):
+                if any(x.get("k") == "Path" and x.get("res") == P_ for x in walk(fl["iter"], pats=False)) and \
+                        any(m.get("k") == "MethodCall" and m["name"] == "insert" and "HashMap" in (recv_ty_(m) or "") for m in walk(fl["body"], pats=False)):
+                    okk = True
+        key = f"clear#{n_ + 1}"
+        if okk:
+            R.ok(key, detail=f"every label of `{P_}` is inserted into the label map before `{P_}.clear()`", where=loc(c))
+        else:
+            R.bad(key, f"`{P_}.clear()` is reached without inserting the pending labels into the label -> node map in the same block: those labels exist in the source but cannot be resolved", loc(c))
+
+
+def recv_ty_(m):
+    r = m.get("recv") or {}
+    return (r.get("aty") or "") + (r.get("ty") or "")
+
+
+@rule("C01", "C01.s.forgetting-drops-what-reads-a-killed-register", floor=1)
+def c01s(F, R):
+    """`forget_values_reading(killed)` keeps a fact exactly when its value does not read one of the killed registers: the closure given to `retain` is evaluated for 'the register the value names is killed / is not killed' - an inverted test keeps the stale facts and throws the sound ones away"""
+    cands = [q for q in F.fns if q.endswith("::forget_values_reading")]
+    if not cands:
+        raise Anchor("forget_values_reading not found")
+    g = F.fn(cands[0])
+    bodies = [g["hir"]["value"]] + [F.fns[x]["hir"]["value"] for x in F.closures_of(cands[0]) if "hir" in F.fns[x]]
+    AV = "riscv_analysis::analysis::available::AvailableValue"
+    ms = [m for b in bodies for m in find_matches(b) if any(v and v.startswith(AV + "::") for a in m["arms"] for k_, v in pat_variants(a["pat"]) if k_ == "path")]
+    if not ms:
+        R.bad("shape", "UNEXTRACTABLE: no match over AvailableValue in forget_values_reading", g["sp"])
+        return
+    m = ms[0]
+
+    def classify(e):
+        if e.get("k") == "MethodCall" and e["name"] == "contains":
+            return "killed"
+        return None
+    n = 0
+    for a in m["arms"]:
+        vs = [short(v) for k_, v in pat_variants(a["pat"]) if k_ == "path" and v and v.startswith(AV + "::")]
+        try:
+            if vs:
+                n += 1
+                keep_if_killed = bool_eval(a["body"], classify, {"killed": True})
+                keep_if_not = bool_eval(a["body"], classify, {"killed": False})
+                if keep_if_killed is False and keep_if_not is True:
+                    R.ok("|".join(vs), detail="dropped exactly when the register it names is killed", where=loc(a))
+                else:
+                    R.bad("|".join(vs), f"a fact whose value is a {'/'.join(vs)} is kept = {keep_if_killed} when the register it names is overwritten and kept = {keep_if_not} when it is not: stale facts survive (`sw a0,0(sp); li a0,9; lw t1,0(sp)` claims t1 = a0) and valid ones are lost", loc(a))
+            else:
+                other = bool_eval(a["body"], classify, {})
+                if other is not True:
+                    R.bad("other", "values that read no current register are dropped by forget_values_reading", loc(a))
+        except BoolUnx as ex:
+            R.bad("unextractable", f"UNEXTRACTABLE: retain predicate of forget_values_reading ({ex})", loc(a))
+    if n == 0:
+        R.bad("shape", "UNEXTRACTABLE: no arm for values that read a register", loc(m))
+
+
 @rule("C13", "C13.g.zero-register-operands-fold-as-zero", floor=1)
 @rule("C01", "C01.m.zero-register-operands-fold-as-zero", floor=1)
 def c01m(F, R):
